@@ -180,9 +180,10 @@ def warm(log):
 class Watchdog(threading.Thread):
     """Kills the largest cbmc when one outgrows the budget or the machine runs out of memory."""
 
-    def __init__(self, log):
+    def __init__(self, log, own=""):
         super().__init__(daemon=True)
         self.log = log
+        self.own = own  # only cbmc processes working under this target directory are this run's to kill
         self.stop = threading.Event()
         self.killed = []
         self.peak_rss_gb = 0.0
@@ -212,12 +213,14 @@ class Watchdog(threading.Thread):
 
     def run(self):
         while not self.stop.wait(3.0):
-            procs = [p for p in self._cbmcs() if "vek_kani" in p[2]]
+            procs = [p for p in self._cbmcs() if "vek_kani" in p[2] and (not self.own or self.own in p[2])]
             if not procs:
                 continue
             procs.sort(reverse=True)
             self.peak_rss_gb = max(self.peak_rss_gb, procs[0][0])
-            if procs[0][0] > RSS_LIMIT_GB or self._avail_gb() < MIN_AVAIL_GB:
+            # over its own budget, or the machine is short of memory and this process is a real contributor (killing a
+            # small cbmc because something else is eating the memory only loses a verdict)
+            if procs[0][0] > RSS_LIMIT_GB or (self._avail_gb() < MIN_AVAIL_GB and procs[0][0] > 1.0):
                 rss, pid, cmd = procs[0]
                 m = re.search(r"(c\d\d_[qt]_\w+?)(?:\.out|\s|$)", cmd)
                 self.killed.append(m.group(1) if m else str(pid))
@@ -240,7 +243,7 @@ def _run_kani(crate_dir, target_dir, harnesses, timeout_s, jobs, logfile, log, e
     for h in harnesses:
         cmd += ["--harness", h["full"]]
     os.makedirs(os.path.dirname(logfile), exist_ok=True)
-    wd = Watchdog(log)
+    wd = Watchdog(log, own=target_dir)
     wd.start()
     rounds = (len(harnesses) + max(1, jobs) - 1) // max(1, jobs)
     overall = timeout_s * rounds + 600
